@@ -36,10 +36,18 @@ void v_boundary(void);            /* harness: a point at which the thread under 
 pthread_t pthread_self(void) { return v_self; }
 int pthread_equal(pthread_t a, pthread_t b) { return a == b; }
 
+/* pthread_once: 0 = not started, 1 = in progress, 2 = done.  glibc tags an in-progress initialisation with the fork
+ * generation: a child forked while ANOTHER thread was inside the init routine finds it "in progress by a previous
+ * generation" and runs the routine itself (it never waits for the vanished thread). */
+static int v_once_state;
 int pthread_once(pthread_once_t *c, void (*fn)(void))
 {
     (void)c;
-    if (!v_once_done) { v_once_done = 1; fn(); }
+    if (v_once_state == 2) return 0;
+    if (v_once_state == 1 && !v_child_mode) return 0;      /* re-entrant use by the initialising thread itself is not modelled */
+    v_once_state = 1; v_once_done = 1;
+    fn();
+    v_once_state = 2;
     return 0;
 }
 
@@ -51,11 +59,24 @@ int pthread_atfork(void (*prepare)(void), void (*parent)(void), void (*child)(vo
     return 0;
 }
 
-int pthread_mutexattr_init(pthread_mutexattr_t *a) { (void)a; return 0; }
-int pthread_mutexattr_settype(pthread_mutexattr_t *a, int t) { (void)a; v_mutex_recursive = (t == PTHREAD_MUTEX_RECURSIVE); return 0; }
+int pthread_mutexattr_init(pthread_mutexattr_t *a) { (void)a; V_BOUNDARY(); return 0; }
+int pthread_mutexattr_settype(pthread_mutexattr_t *a, int t) { (void)a; V_BOUNDARY(); v_mutex_recursive = (t == PTHREAD_MUTEX_RECURSIVE); return 0; }
+
+/* waiting for another thread (hand-rolled spin / yield loops): in a live process the others make progress; in a forked
+ * child there is nobody to wait for */
+int sched_yield(void)
+{
+    V_ASSERT(!v_child_mode, "C10: forked child waits (spins/yields) for a thread that does not exist in the child");
+#ifdef VERIF_CBMC
+    __CPROVER_assume(!v_child_mode);
+#endif
+    return 0;
+}
+
 int pthread_mutex_init(pthread_mutex_t *m, const pthread_mutexattr_t *a)
 {
     (void)m; (void)a;
+    V_BOUNDARY();
     v_mutex_initialised = 1; v_mutex_owner = 0; v_mutex_depth = 0;
     return 0;
 }
